@@ -137,6 +137,18 @@ macro_rules! np {
     };
 }
 
+/// discriminant value with the sign its integer type gives it
+fn discr_val<'tcx>(d: ty::util::Discr<'tcx>) -> i128 {
+    if let ty::Int(it) = d.ty.kind() {
+        let bits = it.bit_width().unwrap_or(64) as u32;
+        if bits < 128 {
+            let shift = 128 - bits;
+            return ((d.val as i128) << shift) >> shift;
+        }
+    }
+    d.val as i128
+}
+
 fn ty_s<'tcx>(ty: Ty<'tcx>) -> String {
     np!(ty.to_string())
 }
@@ -233,7 +245,7 @@ impl<'tcx> Cx<'tcx> {
                     let mut vs = vec![];
                     for (vi, d) in adt.discriminants(self.tcx) {
                         let v = adt.variant(vi);
-                        vs.push(V::A(vec![s(v.name.to_string()), V::I(d.val as i128), V::I(vi.as_u32() as i128)]));
+                        vs.push(V::A(vec![s(v.name.to_string()), V::I(discr_val(d)), V::I(vi.as_u32() as i128)]));
                     }
                     self.ext_enums.insert(name, V::A(vs));
                 }
@@ -773,6 +785,35 @@ fn dump_fn<'tcx>(cx: &mut Cx<'tcx>, did: DefId) -> V {
         }
     }
     o.push(("blocks", V::A(blocks)));
+    // promoted constants (`&0`, `&["a", "b"]`, ...) as tiny bodies
+    if matches!(kind, DefKind::Fn | DefKind::AssocFn | DefKind::Closure) {
+        let promoted = tcx.promoted_mir(did);
+        if !promoted.is_empty() {
+            let mut ps = vec![];
+            for pbody in promoted.iter() {
+                let mut pblocks = vec![];
+                let mut plocals = vec![];
+                for (_l, decl) in pbody.local_decls.iter_enumerated() {
+                    plocals.push(V::A(vec![s(ty_s(decl.ty)), V::Null]));
+                }
+                {
+                    let mut bcx = BodyCx { cx, body: pbody, env };
+                    for (_bb, data) in pbody.basic_blocks.iter_enumerated() {
+                        let mut stmts = vec![];
+                        for st in data.statements.iter() {
+                            if let Some(v) = bcx.statement(st, &file) {
+                                stmts.push(v);
+                            }
+                        }
+                        let term = bcx.terminator(data.terminator(), &file);
+                        pblocks.push(V::O(vec![("s", V::A(stmts)), ("t", term)]));
+                    }
+                }
+                ps.push(V::O(vec![("locals", V::A(plocals)), ("blocks", V::A(pblocks))]));
+            }
+            o.push(("promoted", V::A(ps)));
+        }
+    }
     V::O(o)
 }
 
@@ -800,7 +841,7 @@ fn dump_adt<'tcx>(cx: &mut Cx<'tcx>, did: DefId) -> V {
     ));
     let mut variants = vec![];
     let discrs: Vec<(rustc_abi::VariantIdx, i128)> = if adt.is_enum() {
-        adt.discriminants(tcx).map(|(vi, d)| (vi, d.val as i128)).collect()
+        adt.discriminants(tcx).map(|(vi, d)| (vi, discr_val(d))).collect()
     } else {
         vec![]
     };
